@@ -5,7 +5,8 @@ free tail blocks) x flush schedules before the reorg x fork depth 1..3 x new-bra
 (incl. replaying and conflicting with the orphaned transactions) x reorg limits x event shapes
 (single fork, back-to-back forks, equal/shorter branch then extension, forced reorgs with the
 chain unchanged / extended / silently switched, fork discovered at every scheduler step of a
-running batch).  Oracles: the reference indexer of the final chain and a fresh real server that
+running batch; server restarted before the reorganisation; forks of depth 6..7 on a longer
+chain, below the block files still on disk).  Oracles: the reference indexer of the final chain and a fresh real server that
 only ever saw the final chain (public observables and raw tables).
 '''
 import itertools
@@ -47,6 +48,22 @@ def cases_for(tier):
                 for first in ('replay', 'fan', 'cb'):
                     cases.append(dict(shape='single', tail=list(tail), d=d, flush='----F',
                                       branch=[first] + ['opret'] * d, limit=d, activation=act))
+    # the server restarted between indexing and the reorganisation, and reorganisations that
+    # reach below the block files still kept on disk (deep fork on a longer chain)
+    for tail in (tails[::6] if q else tails):
+        for d in (1, 2, 3):
+            for first in firsts[:3]:
+                cases.append(dict(shape='single', tail=list(tail), d=d, branch=[first] + ['new'] * d,
+                                  flush='----F', limit=3, restart=True))
+        for n in (1, 2, 3):
+            cases.append(dict(shape='forced', tail=list(tail), n=n, mode='extended', flush='----F',
+                              limit=3, restart=True))
+    for tail in (tails[::12] if q else tails[::3]):
+        long_tail = list(tail) + ['multi', 'old', 'new', 'chain2', 'fan', 'old', 'new', 'multi']
+        for d in (6, 7):
+            for first in firsts[:2]:
+                cases.append(dict(shape='single', tail=long_tail, d=d, branch=[first] + ['new'] * d,
+                                  flush='----F', limit=10))
     sub = tails[::5] if q else tails[::2]
     for tail in sub:
         for d, d2 in ((1, 1), (2, 1), (1, 2), (2, 3), (3, 2)):
@@ -81,7 +98,8 @@ def run(tier, seed, started):
     res = farm(run_case, cases, seed=seed)
     c = res.counters
     shapes = res.sets.get('shapes', set())
-    if shapes != {'single', 'double', 'short', 'forced', 'midbatch'} or not c.get('fresh_server_comparisons'):
+    if shapes != {'single', 'double', 'short', 'forced', 'midbatch'} or \
+            not c.get('fresh_server_comparisons') or not c.get('restarts_before_reorg'):
         common.vacuous(PROP, res, f'vacuous C03 run: {shapes} {c}')
     if c.get('max:midbatch_steps', 0) >= 260:
         raise common.Broken('mid-batch switch positions do not cover the whole batch')
@@ -96,7 +114,8 @@ def run(tier, seed, started):
         'fresh_server_comparisons': c['fresh_server_comparisons'],
         'midbatch_steps_covered': c.get('max:midbatch_steps'),
         'exhaustive': True,
-        'bounds': {'tier': tier, 'cases': len(cases), 'fork_depth': 3},
+        'restarts_before_reorg': c.get('restarts_before_reorg', 0),
+        'bounds': {'tier': tier, 'cases': len(cases), 'fork_depth': '1..3, and 6..7 on a longer chain'},
     }
     assumptions = ['chains at least twice as high as the fork is deep (the property\'s carve-out)',
                    'fork depth within the reorg limit', 'default schedule apart from the placement '
